@@ -170,11 +170,14 @@ func (c *Client) StatBlobs(ctx context.Context, blobs []blob.Ref, fn func(blob.S
 	if len(needStat) == 0 {
 		return nil
 	}
-	return blobserver.StatBlobsParallelHelper(ctx, blobs, fn, c.httpGate, func(br blob.Ref) (workerSB blob.SizedRef, err error) {
+	// Only the blobs not answered from the cache above still need a
+	// stat, and StatBlobsParallelHelper itself calls fn with what each
+	// worker returns: the worker must not call it too.
+	return blobserver.StatBlobsParallelHelper(ctx, needStat, fn, c.httpGate, func(br blob.Ref) (workerSB blob.SizedRef, err error) {
 		err = c.doStat(ctx, []blob.Ref{br}, 0, false, func(sb blob.SizedRef) error {
 			workerSB = sb
 			c.haveCache.NoteBlobExists(sb.Ref, sb.Size)
-			return fn(sb)
+			return nil
 		})
 		return
 	})
